@@ -284,6 +284,9 @@ Definition wf (m : msg) : Prop :=
      carries a non-empty payload (an EDF value is at least one byte) *)
   (if uses k FCode then (m_code m = 255 /\ m_payload m <> []) \/ (0 <= m_code m <= 3 /\ m_payload m = [])
    else m_code m = 0 /\ m_payload m <> []) /\
+  (* the guard of the event / terminate-by-name cases is one byte longer than an empty name with
+     a one-byte payload; no EDF value is that short (the shortest, a bool, takes two bytes) *)
+  (match k with KEvent | KTermName | KTermEvent => 2 <= blen (m_name m) + blen (m_payload m) | _ => True end) /\
   8 + blen (body m) < 2 ^ 32.
 
 (* ------------------------------------------------------------------------------------------
